@@ -33,6 +33,10 @@ def main():
         if getattr(P, 'not_claimed', None):
             na.append({'property_id': pid, 'reason': P.not_claimed})
             continue
+        missing = [m for m in P.lean_props if not os.path.exists(os.path.join(VERIF, 'lean', *m.split('.')) + '.lean')]
+        if missing or (P.driver and not os.path.exists(os.path.join(VERIF, 'lean', P.driver))):
+            na.append({'property_id': pid, 'reason': 'check under construction in this tree (theorem module or model driver not yet present); not claimed'})
+            continue
         checks.append({
             'property_id': pid,
             'quick_cmd': f'./check {pid} --tier quick',
